@@ -472,8 +472,12 @@ DoCrashRecover(op, p, n) ==
 \* no duplicated / reordered offset on a full scan
 C05_NoDup(sc) == Increasing(sc)
 
-\* no phantom: nothing readable beyond what the log accounts for
-C05_NewestOK(sc, nw) == sc # <<>> => nw = Last(sc).off
+\* no phantom: nothing readable beyond what the log accounts for.  (Not an
+\* equality: retention deletes the newest deletable segment first, a crash in
+\* between leaves a hole, and a later Truncate into the hole leaves an empty
+\* active segment whose base lies beyond the last record - nothing is lost,
+\* duplicated or invented by that, so C05 does not forbid it.)
+C05_NewestOK(sc, nw) == sc # <<>> => Last(sc).off <= nw
 
 \* every record of the scan is what a reader opened at its offset delivers
 C05_ReadAt(sc, rd) ==
